@@ -216,8 +216,7 @@ def main():
         for f in sorted(files):
             p = os.path.join(wt, f)
             out = open(p, encoding='utf-8').read() + sink
-            ast.parse(out)
-            open(p, 'w', encoding='utf-8').write(out)
+            open(p, 'w', encoding='utf-8').write(out)  # (Python 3.12 syntax: parsed by the checks' own interpreter, not by this tool's)
         print(f'appended the syntax sink to {len(files)} modules')
     elif what == 'params':
         n = rename_params(wt)
